@@ -456,6 +456,17 @@ func (g *progGen) customSpec() *CustomSpec {
 		c.Site = g.fails
 		g.fails++
 	}
+	giveup := 35
+	if g.pf.CustomFail > 0 {
+		giveup = 60 // ... and the function itself can fail, on a retry
+	}
+	if g.pf.RejectHeavy && t.Chance("cust.inner_giveup", giveup) {
+		// the function ends with a draw that often gives up: the attempt is abandoned from inside a nested draw (groups that
+		// never end inside a discarded one) and the Custom value is retried
+		v := g.newVar()
+		c.Vars = append(c.Vars, v)
+		c.Body = []*Stmt{{K: SDraw, Var: v, Gen: &GenSpec{K: "filter_rare", Sub: &GenSpec{K: "smallrange", A: t.Int("cust.inner_dom", 1, 12)}}, Label: fmt.Sprintf("ci%d", c.ID)}}
+	}
 	g.p.Customs = append(g.p.Customs, c)
 	return c
 }
